@@ -191,9 +191,20 @@ func (d *dir) Close() error {
 		}
 		repo.wg.Wait()
 		if !*d.conf.Storage.ReadOnly {
-			err = repo.uploads.DeleteAll()
+			// cancel each upload with its own lock held, the expiry timer may be pruning the same session
+			sessions, err := repo.uploads.List()
 			if err != nil {
 				errs = append(errs, err)
+				continue
+			}
+			for _, sessionID := range sessions {
+				if bc, err := repo.uploads.Get(sessionID); err == nil {
+					if err := bc.Cancel(); err != nil {
+						errs = append(errs, err)
+					}
+				}
+			}
+			if !repo.uploads.IsEmpty() {
 				continue
 			}
 		}
